@@ -1,4 +1,9 @@
 """C14 — ReprCString owns one well-formed NUL-terminated buffer."""
+import os
+
+import common
+import gluerun
+from common import VERIF
 from props import rtprops
 
 LEVEL = "exploration"
@@ -15,10 +20,14 @@ def run(chk, replay=None):
         steps += [dict(instr="asan", part="asan", count=2000, args=dict(maxsym=5)),
                   dict(instr="valgrind", part="valgrind", count=50, args=dict(maxsym=3))]
     rtprops.execute(chk, "c14", steps)
+    # the library's `serde` feature: a ReprCString built by deserialisation (transient, owned and borrowed strings; JSON from memory and from a reader)
+    t = common.cargo_build(os.path.join(VERIF, "serdechk"), "serdechk", profile_release=False)
+    gluerun.run_bin(chk, [os.path.join(t, "debug", "serdechk")], "serde-feature", ("C14:",))
+    chk.floor("strings built by deserialisation", int(chk.parts.get("serde-feature", {}).get("serde_cases", 0)), 3000)
     rtprops.summarize(chk, ("inputs_via_str", "inputs_via_string", "inputs_via_bytes", "reprcstr_cases"))
     chk.coverage["rule"] = ("every string over the alphabet {NUL,'a','é','€','😀'} up to maxsym symbols, built through From<&str>, From<String> and From<&[u8]> "
                             "(classes: empty, NUL-free, NUL-terminated, interior NUL, bytes without terminator), plus random longer inputs; each checked for content, terminator, "
-                            "eq/hash/clone, exactly one live block of size len+1, free layout, leak. distinct = (input, constructor) pairs")
+                            "eq/hash/clone, exactly one live block of size len+1, free layout, leak; with the serde feature, ~1000 strings (escapes, NUL, multi-byte) deserialised from transient/owned/borrowed strings and from JSON (memory, reader) and serialised again. distinct = (input, constructor) pairs")
     chk.coverage["exhaustive"] = True
     p = chk.parts.get("native-debug", {})
     chk.floor("inputs via &[u8] (debug build: leak visible)", p.get("inputs_via_bytes", 0), 3000)
